@@ -226,6 +226,15 @@ def check_model(spec, res, ctx):
                     if not np.allclose(np.asarray(ac3[k][j], dtype=float), results[k][1][j], rtol=1e-9, atol=1e-12, equal_nan=True):
                         bad("variant_mismatch", "variant %d order %d differs from the single-variant model with the same stds" % (k, j), what="variant")
                         break
+            # scaling all stds of a multi-variant model scales every variant's autocovariances
+            m3.rescale_stds(3.0)
+            ac3s = m3.get_acov(up_to_order=1)
+            res.ev()
+            for k in range(3):
+                for j in range(2):
+                    if not np.allclose(np.asarray(ac3s[k][j], dtype=float), 9.0 * np.asarray(ac3[k][j], dtype=float), rtol=1e-9, atol=1e-12, equal_nan=True):
+                        bad("rescale", "3-variant model: rescale_stds(3) does not scale variant %d order %d by 9" % (k, j), what="rescale_variants")
+                        break
         except Exception as e:
             bad("exception", "variants: %s: %s" % (type(e).__name__, str(e)[:200]), error=type(e).__name__)
     res.sample({"model": name, "rows": rows_expected, "nonstationary": bool(cls.get("num_unit"))})
